@@ -106,6 +106,11 @@ theorem C10_footprint_before_after {x y : Exec} (hx : Reach x) (hy : Reach y) (f
     (hbefore : f ∉ x.works) (hafter : f ∉ y.works) : Released x f ∧ Released y f :=
   ⟨C10_no_residue hx f hbefore, C10_no_residue hy f hafter⟩
 
+/-- the kernel model's allocation is lowest-free: the number handed out is not open and every smaller
+    one is (this is why a closed descriptor's number comes back, the D12 family of scenarios) -/
+theorem C10_alloc_lowest_free (k : Kernel) :
+    k.alloc ∉ k.open_ ∧ ∀ m : Nat, (m : Int) < k.alloc → (m : Int) ∈ k.open_ := alloc_fresh k
+
 /-- non-vacuity: a connection is accepted, registers two descriptors, and its task asks for teardown -/
 example : ∃ y log, runOnce (fresh ⟨[5, 6], []⟩)
       { beh := fun _ => ⟨.ok [(5, 1)], .tru, [], ⟨[5], true⟩⟩, ready := [], arrive := some ⟨5, false⟩, prio := [] }
